@@ -161,6 +161,23 @@ class SymVal:
     def __eq__(self, o):
         return self._cmp(o, False)
 
+    def _ord(self, o, op):
+        ot = o.t if isinstance(o, SymVal) else z3.RealVal(str(o))
+        r = simp_bool({"<": self.t < ot, "<=": self.t <= ot, ">": self.t > ot, ">=": self.t >= ot}[op])
+        return r if isinstance(r, bool) else SymBool(r)
+
+    def __lt__(self, o):
+        return self._ord(o, "<")
+
+    def __le__(self, o):
+        return self._ord(o, "<=")
+
+    def __gt__(self, o):
+        return self._ord(o, ">")
+
+    def __ge__(self, o):
+        return self._ord(o, ">=")
+
     def __ne__(self, o):
         return self._cmp(o, True)
 
@@ -363,8 +380,10 @@ print("RESULT " + json.dumps(out))
     p = subprocess.run([sys.executable, "-c", script], input=json.dumps({"format": fmt.deparse(), "dims": dims,
                        "indices": indices, "vals": vals}), capture_output=True, text=True, env=env, timeout=120)
     del pickle
+    if p.returncode < 0:
+        return {"status": "crash", "signal": -p.returncode, "stderr": p.stderr[-400:]}
     if p.returncode != 0:
-        return {"status": "crash", "stderr": p.stderr[-400:]}
+        return {"status": "replay-error", "stderr": p.stderr[-400:]}
     for line in p.stdout.splitlines():
         if line.startswith("RESULT "):
             got = json.loads(line[7:])
@@ -524,7 +543,7 @@ def writer_case(fmt: Format, dims, entry, k_entries, stats):
             for c, v in got_items:
                 c = tuple(int(x) if not isinstance(x, SymInt) else x.concretise() for x in c)
                 if c in got:
-                    problems.append({"what": "a coordinate is stored twice", "format": fmt.deparse(), "coords": conc, "entry": entry})
+                    problems.append({"what": "a coordinate is stored twice", "format": fmt.deparse(), "coords": conc, "dimensions": list(dims), "entry": entry})
                 got[c] = vterm(v)
             conds = []
             for c in set(want) | set(got):
@@ -536,6 +555,24 @@ def writer_case(fmt: Format, dims, entry, k_entries, stats):
             if conds and m.check(z3.Not(z3.And(*conds))) != z3.unsat:
                 problems.append({"what": "value read back differs from the (summed) value supplied", "format": fmt.deparse(),
                                  "coords": conc, "dimensions": list(dims), "entry": entry})
+            # to_dok: exactly the non-zero entries (the real `value != 0.0` test forks on the symbolic value);
+            # explicit_zeros=True: every stored entry
+            def ckey(c):
+                return tuple(int(x) if not isinstance(x, SymInt) else x.concretise() for x in c)
+
+            d_all = {ckey(c): vterm(v) for c, v in t.to_dok(explicit_zeros=True).items()}
+            if set(d_all) != set(got) or any(m.check(d_all[c] != got[c]) != z3.unsat for c in got):
+                problems.append({"what": "to_dok(explicit_zeros=True) differs from items()", "format": fmt.deparse(),
+                                 "coords": conc, "dimensions": list(dims), "entry": entry})
+            d_nz = {ckey(c): vterm(v) for c, v in t.to_dok().items()}
+            bad_dok = [c for c in d_nz if c not in got or m.check(z3.Not(z3.And(d_nz[c] == got[c], got[c] != 0))) != z3.unsat]
+            bad_dok += [c for c in got if c not in d_nz and m.check(got[c] != 0) != z3.unsat]
+            if bad_dok:
+                problems.append({"what": "to_dok() is not the set of non-zero stored entries", "format": fmt.deparse(),
+                                 "coords": conc, "dimensions": list(dims), "entry": entry, "at": [list(c) for c in bad_dok]})
+            if order == 0 and (not got or m.check(vterm(t.__float__()) != got[()]) != z3.unsat):
+                problems.append({"what": "float(tensor) differs from the stored scalar", "format": "", "coords": conc,
+                                 "dimensions": [], "entry": entry})
             # to_format: content preserved in another format (drops explicit zeros: the comparison below is on values)
             if order and entry == "from_aos":
                 other = Format(tuple(Mode.compressed if mm == Mode.dense else Mode.dense for mm in fmt.modes),
@@ -551,6 +588,10 @@ def writer_case(fmt: Format, dims, entry, k_entries, stats):
                 if conds2 and m.check(z3.Not(z3.And(*conds2))) != z3.unsat:
                     problems.append({"what": "to_format changes the content", "format": fmt.deparse(), "target": other.deparse(),
                                      "coords": conc, "dimensions": list(dims), "entry": entry})
+                # == compares contents whatever the formats
+                if not (t == t2):
+                    problems.append({"what": "a tensor is not == to its own to_format copy", "format": fmt.deparse(),
+                                     "target": other.deparse(), "coords": conc, "dimensions": list(dims), "entry": entry})
             # canonical structure: sorted, duplicate-free per segment
             idx = t.taco_indices
             for l, lv in enumerate(idx):
@@ -560,12 +601,12 @@ def writer_case(fmt: Format, dims, entry, k_entries, stats):
                         seg = crd[a:b]
                         if any(x >= y for x, y in zip(seg, seg[1:])):
                             problems.append({"what": "stored structure is not sorted/duplicate-free", "format": fmt.deparse(),
-                                             "coords": conc, "entry": entry})
+                                             "coords": conc, "dimensions": list(dims), "entry": entry})
         except (HarnessError, Infeasible):
             raise
         except Exception as e:  # noqa: BLE001
             problems.append({"what": f"read-back raised {type(e).__name__}: {e}"[:200], "format": fmt.deparse(),
-                             "coords": conc, "entry": entry})
+                             "coords": conc, "dimensions": list(dims), "entry": entry})
 
     with fake_ffi():
         st = pyproxy.explore(base, body, max_paths=20000)
@@ -627,65 +668,100 @@ def replay_writer(p):
     import sys
 
     script = r"""
-import json, sys
+import itertools, json, sys
 spec = json.load(sys.stdin)
 from tensora import Tensor
-coords = [tuple(c) for c in spec["coords"]]
-vals = [float(k + 1) for k in range(len(coords))]
+coords0 = [tuple(c) for c in spec["coords"]]
 dims = tuple(spec["dimensions"])
-out = {}
-try:
-    if spec["entry"] == "from_soa" and dims:
-        t = Tensor.from_soa(tuple([c[d] for c in coords] for d in range(len(dims))), vals, dimensions=dims, format=spec["format"])
-    elif spec["entry"] == "from_dok":
-        t = Tensor.from_dok(dict(zip(coords, vals)), dimensions=dims, format=spec["format"])
-        d = dict(zip(coords, vals)); coords = list(d); vals = list(d.values())
-    else:
-        t = Tensor.from_aos(coords, vals, dimensions=dims, format=spec["format"])
-    out["accepted"] = True
-    out["items"] = [[list(c), v] for c, v in t.items()]
-    out["format"] = t.format.deparse(); out["dimensions"] = list(t.dimensions)
-    if spec.get("target"):
-        out["converted"] = [[list(c), v] for c, v in t.to_format(spec["target"]).items()]
-except Exception as e:
-    out["accepted"] = False
-    out["error"] = type(e).__name__
-want = {}
-for c, v in zip(coords, vals):
-    want[c] = want.get(c, 0.0) + v
-out["want"] = [[list(c), v] for c, v in sorted(want.items())]
+out = {"runs": []}
+# values: all positive first (the primary replay), then every positive/zero/negative pattern (to_dok drops zeros)
+patterns = [tuple(1 for _ in coords0)] + [p for p in itertools.product([1, 0, -1], repeat=len(coords0)) if not all(x == 1 for x in p)]
+for pat in patterns:
+    coords = list(coords0)
+    vals = [float(sg * (k + 1)) for k, sg in enumerate(pat)]
+    run = {"vals": vals}
+    try:
+        if spec["entry"] == "from_soa" and dims:
+            t = Tensor.from_soa(tuple([c[d] for c in coords] for d in range(len(dims))), vals, dimensions=dims, format=spec["format"])
+        elif spec["entry"] == "from_dok":
+            t = Tensor.from_dok(dict(zip(coords, vals)), dimensions=dims, format=spec["format"])
+            d = dict(zip(coords, vals)); coords = list(d); vals = list(d.values())
+        else:
+            t = Tensor.from_aos(coords, vals, dimensions=dims, format=spec["format"])
+        run["accepted"] = True
+        items = list(t.items())
+        run["items"] = [[list(c), v] for c, v in items]
+        run["format"] = t.format.deparse(); run["dimensions"] = list(t.dimensions)
+        extra = []
+        for lv in t.taco_indices:
+            if lv:
+                pos, crd = lv
+                for a, b in zip(pos, pos[1:]):
+                    seg = list(crd[a:b])
+                    if any(x >= y for x, y in zip(seg, seg[1:])):
+                        extra.append("stored structure is not sorted/duplicate-free")
+        extra = sorted(set(extra))
+        if t.to_dok(explicit_zeros=True) != dict(items):
+            extra.append("to_dok(explicit_zeros=True) differs from items()")
+        if t.to_dok() != {c: v for c, v in items if v != 0.0}:
+            extra.append("to_dok() is not the set of non-zero stored entries")
+        if not dims and float(t) != dict(items).get((), None):
+            extra.append("float(tensor) differs from the stored scalar")
+        if spec.get("target"):
+            t2 = t.to_format(spec["target"])
+            run["converted"] = [[list(c), v] for c, v in t2.items()]
+            if not (t == t2):
+                extra.append("a tensor is not == to its own to_format copy")
+        run["extra"] = extra
+    except Exception as e:
+        run["accepted"] = False
+        run["error"] = type(e).__name__
+    want = {}
+    for c, v in zip(coords, vals):
+        want[c] = want.get(c, 0.0) + v
+    run["want"] = [[list(c), v] for c, v in sorted(want.items())]
+    out["runs"].append(run)
 print("RESULT " + json.dumps(out))
 """
     env = dict(os.environ)
     env["PYTHONPATH"] = os.path.join(os.environ.get("TENSORA_VERIF_REPO", "/repo"), "src")
     r = subprocess.run([sys.executable, "-c", script], input=json.dumps(p), capture_output=True, text=True, env=env, timeout=120)
+    if r.returncode < 0:
+        return {"status": "crash", "signal": -r.returncode, "stderr": r.stderr[-300:], "confirmed": True}
     if r.returncode != 0:
-        return {"status": "crash", "stderr": r.stderr[-300:], "confirmed": True}
+        # the replay script itself failed (not the code under test, whose exceptions it catches)
+        return {"status": "replay-error", "stderr": r.stderr[-300:], "confirmed": False}
     for line in r.stdout.splitlines():
         if line.startswith("RESULT "):
-            got = json.loads(line[7:])
+            runs = json.loads(line[7:])["runs"]
             dims = p["dimensions"]
             in_range = all(0 <= c[d] < dims[d] for c in p["coords"] for d in range(len(dims)))
             bad = []
-            if not got["accepted"]:
-                if in_range:
-                    bad.append("in-range input rejected: " + got.get("error", ""))
-            elif not in_range:
-                bad.append("out-of-range coordinate accepted")
-            else:
-                stored = {tuple(c): v for c, v in got["items"]}
-                want = {tuple(c): v for c, v in got["want"]}
-                if any(stored.get(c, 0.0) != want.get(c, 0.0) for c in set(stored) | set(want)):
-                    bad.append(f"content differs: stored {sorted(stored.items())} expected {sorted(want.items())}")
-                if len(got["items"]) != len(stored):
-                    bad.append("a coordinate is stored twice")
-                if got["format"] != p["format"] or got["dimensions"] != list(dims):
-                    bad.append("format/dimensions not as given")
-                if "converted" in got:
-                    conv = {tuple(c): v for c, v in got["converted"]}
-                    if any(conv.get(c, 0.0) != want.get(c, 0.0) for c in set(conv) | set(want)):
-                        bad.append("to_format changes the content")
-            return {"status": "ok", "problems": bad, "confirmed": bool(bad), "got": {k: got[k] for k in got if k != "want"}}
+            for got in runs:
+                tag = f" (values {got['vals']})" if got is not runs[0] else ""
+                if not got["accepted"]:
+                    if in_range:
+                        bad.append("in-range input rejected: " + got.get("error", "") + tag)
+                elif not in_range:
+                    bad.append("out-of-range coordinate accepted" + tag)
+                else:
+                    stored = {tuple(c): v for c, v in got["items"]}
+                    want = {tuple(c): v for c, v in got["want"]}
+                    if any(stored.get(c, 0.0) != want.get(c, 0.0) for c in set(stored) | set(want)):
+                        bad.append(f"content differs: stored {sorted(stored.items())} expected {sorted(want.items())}" + tag)
+                    if len(got["items"]) != len(stored):
+                        bad.append("a coordinate is stored twice" + tag)
+                    if got["format"] != p["format"] or got["dimensions"] != list(dims):
+                        bad.append("format/dimensions not as given" + tag)
+                    if "converted" in got:
+                        conv = {tuple(c): v for c, v in got["converted"]}
+                        if any(conv.get(c, 0.0) != want.get(c, 0.0) for c in set(conv) | set(want)):
+                            bad.append("to_format changes the content" + tag)
+                    bad += [x + tag for x in got.get("extra", [])]
+                if bad and got is runs[0]:
+                    break
+            g0 = runs[0]
+            return {"status": "ok", "problems": bad[:6], "confirmed": bool(bad), "got": {k: g0[k] for k in g0 if k != "want"}}
     return {"status": "no-result", "confirmed": False}
 
 
@@ -753,6 +829,9 @@ def run(tier):
                     rep.harness_error(f"reader {p['format']}: {p['what']}")
                 else:
                     rp = p.get("replay") or {}
+                    if rp.get("status") == "replay-error":
+                        rep.harness_error(f"reader replay script failed for {p['format']}: {rp.get('stderr', '')[-200:]}")
+                        continue
                     if rp.get("status") == "ok" and not rp.get("problems"):
                         rep.harness_error(f"reader counterexample for {p['format']} did not reproduce on the cffi-backed Tensor: {p['what'][:120]}")
                         continue
